@@ -3,7 +3,9 @@ package wsim
 import (
 	"fmt"
 	"hash/fnv"
+	"io"
 	"runtime"
+	"sort"
 	"strings"
 	"testing"
 	"testing/cryptotest"
@@ -185,9 +187,16 @@ func (s *Sim) Reserve(n int) {
 
 // digestRun hashes everything observable in canonical order: per-task
 // histories, per-connection call logs and taps, final stats.
+var traceOut io.Writer // when set, the digest input is also written here (determinism debugging)
+
 func digestRun(run *Run, s *Sim) uint64 {
 	h := fnv.New64a()
-	w := func(format string, a ...interface{}) { fmt.Fprintf(h, format, a...) }
+	w := func(format string, a ...interface{}) {
+		fmt.Fprintf(h, format, a...)
+		if traceOut != nil {
+			fmt.Fprintf(traceOut, format, a...)
+		}
+	}
 	w("reason=%s leaked=%d steps=%d sim=%d\n", run.Reason, run.Leaked, run.Stats.Steps, run.Stats.SimNanos)
 	for _, t := range run.Tasks {
 		w("task %d %s aborted=%v panic=%v\n", t.ID, t.Name, t.Aborted, t.Panic != "")
@@ -198,8 +207,26 @@ func digestRun(run *Run, s *Sim) uint64 {
 	for i := 0; i < s.connCount(); i++ {
 		c := s.connAt(i)
 		w("conn %d closed=%v tap=%x\n", c.ID, c.IsClosed(), fnvBytes(c.Tap()))
-		for _, e := range c.Calls() {
-			w(" %c %d %d %d %d %d %d %d\n", e.Op, e.Step, e.T, e.Arg, e.N, e.Err, e.Fault, e.All)
+		calls := c.Calls()
+		// canonical order inside one step: two goroutines that both run in a step (one released, one woken
+		// indirectly) may log non-parking calls in either order
+		sort.SliceStable(calls, func(i, j int) bool {
+			a, b := calls[i], calls[j]
+			if a.Step != b.Step {
+				return a.Step < b.Step
+			}
+			if a.Op != b.Op {
+				return a.Op < b.Op
+			}
+			if a.Arg != b.Arg {
+				return a.Arg < b.Arg
+			}
+			return a.Err < b.Err
+		})
+		for _, e := range calls {
+			// (the all-ops index is not part of the digest: a non-parking Set*Deadline call of one
+			// goroutine may be numbered before or after a Read another goroutine is just invoking)
+			w(" %c %d %d %d %d %d %d\n", e.Op, e.Step, e.T, e.Arg, e.N, e.Err, e.Fault)
 		}
 	}
 	for _, e := range run.Reals {
